@@ -153,6 +153,9 @@ def case_bounds(seed, out, spec, wd):
     if use_knobs:
         lim = {'max_vars': r.pick([1, 2, 3, 5, 8, 13, 20, 40]), 'max_str': r.pick([1, 4, 16, 40]),
                'max_coll': r.pick([1, 2, 3, 7, 10]), 'max_depth': r.pick([3, 4, 5, 6, 8])}
+        if r.chance(0.12):
+            lim['max_depth'] = r.pick([2, 1, 0, -1])    # boundary settings: next to nothing, nothing, less than nothing
+            out.count('boundary_depth_settings')
     else:
         lim = default_limits()
     nloc = r.randrange(1, 7)
@@ -280,7 +283,9 @@ def measure(snap, top, names, lim, probs, st):
         d += 1
     if depth:
         deepest = max(depth.values())
-        if deepest > lim['max_depth']:
+        # (a frame variable or watch result itself is level 1 and not "nested": with a limit below 1 nothing under it may
+        # appear)
+        if deepest > max(lim['max_depth'], 1):
             probs.add('bounds:depth', 'an entry is nested %d levels below the frame, maximum depth %d' % (
                 deepest, lim['max_depth']))
         # the limit bit if a real object exists below the deepest reported level and was cut off
@@ -293,7 +298,7 @@ def measure(snap, top, names, lim, probs, st):
             len(unreachable), unreachable[:4]))
     # (e) budget spent breadth-first
     frame_names = [x.name for x in snap.frames[0].variables]
-    if len(names) + 1 <= lim['max_vars']:
+    if len(names) + 1 <= lim['max_vars'] and lim['max_depth'] >= 2:
         missing = [n for n in names if n not in frame_names]
         if missing:
             probs.add('order:local-crowded-out', 'locals %s are missing although %d locals fit the budget of %d '
